@@ -18,6 +18,25 @@ func stdoutPath(wid, batch int) string {
 
 func tzEnv() string { return os.Getenv("TZ") }
 
+// traceRun appends one line per simulated run to $VERIF_TRACE (determinism self-test):
+// everything on the line must be a pure function of (seed, wid, batch, index) and the code.
+var traceFile *os.File
+
+func traceRun(i int, hash, steps uint64, extra string) {
+	path := os.Getenv("VERIF_TRACE")
+	if path == "" {
+		return
+	}
+	if traceFile == nil {
+		f, err := os.Create(path)
+		if err != nil {
+			harnessFatal("trace: %v", err)
+		}
+		traceFile = f
+	}
+	fmt.Fprintf(traceFile, "%d %016x %d %016x\n", i, hash, steps, fnv64(extra))
+}
+
 // poolMain prints the outcome of every pool program on every back end (debug aid).
 func poolMain() {
 	rec := &recorder{}
